@@ -3,6 +3,7 @@ model + resolver environment (universal resolver interpreting the environment), 
 requests, returns canonical responses, call logs and the JSON AST the model consumes."""
 import os, env  # noqa: F401  (installs the parser substitute)
 import asyncio, itertools, json, warnings
+warnings.filterwarnings("ignore", message="coroutine .* was never awaited")
 import gqlshim
 from pyval import enc, dec, strings_in, stf_table
 from gen import print_sdl, BUILTIN_SCALARS
@@ -89,6 +90,7 @@ async def build_engine(model, renv, cfg=None, sdl=None, engine_kwargs=None, dire
     from tartiflette import create_engine, Resolver, Scalar, TypeResolver
     cfg = cfg or {}
     b = Built()
+    b.cfg = dict(cfg) if cfg else None
     b.schema_name = f"case{next(_counter)}"
     for t in model["types"]:
         if t["kind"] == "scalar" and t["name"] not in BUILTIN_SCALARS:
